@@ -663,6 +663,32 @@ func main() {
 	lg = nbdrive.InstallLogger()
 	wd = nbdrive.StartWatchdog(run, "c12")
 	wd.SpinCPU = 30 * time.Second
+	if run.Phase == "conc" {
+		if run.Replay != "" {
+			var c concCase
+			if err := run.ReplayCase(&c); err != nil {
+				fmt.Println("replay:", err)
+				return
+			}
+			runConc(c)
+			return
+		}
+		n := run.N(400, 8000)
+		for i := 0; i < n; i++ {
+			if !run.Mine(i) {
+				continue
+			}
+			c := genConc(i)
+			run.Begin(c)
+			wd.Enter(c)
+			runConc(c)
+			wd.Leave()
+			if i < 2 {
+				run.Sample(c)
+			}
+		}
+		return
+	}
 	if run.Replay != "" {
 		var c caseT
 		if err := run.ReplayCase(&c); err != nil {
